@@ -108,7 +108,11 @@ class TaggedUGrammar(UGrammar[U, V, W], Generic[T, U, V, W]):
         for S in self.tags:
             tags[S] = {}
             for P in self.tags[S]:
-                if isinstance(P, Constant) and P.type in constants:
+                if (
+                    isinstance(P, Constant)
+                    and not P.has_value()
+                    and P.type in constants
+                ):
                     for val in constants[P.type]:
                         tags[S][Constant(P.type, val, True)] = self.tags[S][P]
                 else:
@@ -271,7 +275,11 @@ class ProbUGrammar(TaggedUGrammar[float, U, V, W]):
         for S in self.tags:
             tags[S] = {}
             for P in self.tags[S]:
-                if isinstance(P, Constant) and P.type in constants:
+                if (
+                    isinstance(P, Constant)
+                    and not P.has_value()
+                    and P.type in constants
+                ):
                     for val in constants[P.type]:
                         tags[S][Constant(P.type, val, True)] = {
                             k: v / len(constants[P.type])
